@@ -1,6 +1,38 @@
 (* C09 — Overlap-window plugins give chunking-independent results at chunk boundaries.
-   Only property theorems, each closed by `exact <lemma>` and followed by Print Assumptions. *)
-From SV Require Import Model.Rows Model.Chunk Model.Overlap Proof.OverlapBasic.
+   Only property theorems, each closed by `exact <lemma>` and followed by Print Assumptions.
+   Model: Model/Overlap.v (OverlapWindowPlugin.iter / do_compute / cache_beyond on Plugin.iter for one
+   dependency, Plugin.do_compute / _fix_output, Chunk.split / concatenate).
+   Hypothesis on the user computation: Spec/WindowLocal.v. *)
+From SV Require Import Model.Rows Model.Chunk Model.OverlapKernels Model.Overlap.
+From SV Require Import Spec.WindowLocal Spec.OverlapSpec.
+From SV Require Import Proof.OverlapBasic Proof.OverlapProof Proof.WindowLocalProof Proof.OverlapExamples.
+
+(* For disjoint sorted positive-length input rows R, EVERY contiguous well-formed chunking cs of the
+   run (chunks shorter than the window, rows longer than the window, empty and zero-duration chunks),
+   every window pair (wl, wr) >= 0 and every computation f that is window-local within margins
+   (ml, mr) <= (2 wl, 2 wr): iter succeeds and the concatenated delivered rows are f(all rows). *)
+Theorem C09_overlap_equals_whole_run :
+  forall f wtuple wl wr ml mr odt okind orun otgt sw R a b dt run cs,
+  0 <= wl -> 0 <= wr -> ml <= 2 * wl -> mr <= 2 * wr -> window_local ml mr f ->
+  dsp R -> chunking_of R a b dt run cs ->
+  exists outs,
+    ow_iter (single_params f wtuple wl wr odt okind orun otgt sw) cs = Ok (as_items outs) /\
+    flat_map crows outs = f R /\
+    contiguous_from a outs /\ last_end a outs = b /\ Forall wf outs.
+Proof. exact overlap_single_correct. Qed.
+Print Assumptions C09_overlap_equals_whole_run.
+
+(* One output per input row with the row's extent and any payload that depends only on the rows within
+   (kl, kr) of it is window-local; in particular the neighbour count and the plain copy. *)
+Theorem C09_per_row_kernel_window_local : forall h kl kr,
+  0 <= kl -> 0 <= kr -> payload_local kl kr h -> window_local kl kr (f_row h).
+Proof. exact f_row_window_local. Qed.
+Print Assumptions C09_per_row_kernel_window_local.
+
+Theorem C09_neighbour_count_window_local : forall kl kr,
+  0 <= kl -> 0 <= kr -> window_local kl kr (f_count kl kr).
+Proof. exact f_count_window_local. Qed.
+Print Assumptions C09_neighbour_count_window_local.
 
 (* DESIGN section 7, T6: the final `yield self.cached_results` never yields None, and a run with no
    input chunk fails (ValueError "Cannot work with empty input buffer") before reaching it. *)
@@ -12,3 +44,20 @@ Print Assumptions C09_flush_never_none.
 Theorem C09_empty_stream_fails : forall P, ow_iter P [] = Err E_EMPTY_BUFFER.
 Proof. exact ow_iter_empty_stream_fails. Qed.
 Print Assumptions C09_empty_stream_fails.
+
+(* The property as stated ("all disjoint sorted inputs") with zero-length rows admitted is false of the
+   faithful model: a zero-length output row on the early-split time is delivered twice. *)
+Definition C09_full_overlap_equals_whole_run_zero_length : Prop :=
+  forall R a b dt run cs, dsn R -> chunking_of R a b dt run cs ->
+  exists items,
+    ow_iter (single_params (f_count 0 0) true 0 0 20 10 (Some 7) 200 3) cs = Ok items /\
+    delivered_rows 0 items = f_count 0 0 R.
+
+Theorem C09_overlap_zero_length_rows_refuted :
+  exists R a b dt run cs, dsn R /\ chunking_of R a b dt run cs /\
+  exists items,
+    ow_iter (single_params (f_count 0 0) true 0 0 20 10 (Some 7) 200 3) cs = Ok items /\
+    delivered_rows 0 items = [mkrow 0 0 0 0; mkrow 0 0 0 0; mkrow 0 2 1 1] /\
+    delivered_rows 0 items <> f_count 0 0 R.
+Proof. exact (ex_intro _ _ (ex_intro _ _ (ex_intro _ _ (ex_intro _ _ (ex_intro _ _ (ex_intro _ _ zero_length_witness)))))). Qed.
+Print Assumptions C09_overlap_zero_length_rows_refuted.
